@@ -194,10 +194,10 @@ func (x *Exec) wfArray(name string, t *T) {
 				ks, _ := vs.ArrParts()
 				k := Sym("k!wf", ks)
 				sel := Select(Select(t, r), k)
-				x.prog.defAxioms["wf:"+t.Op] = Forall([]*T{r, k}, pattern(Or(Eq(sel, IntLit(0)), Select(a0, sel)), sel))
+				x.prog.defAxioms["wf:"+t.Op] = Forall([]*T{r, k}, pattern(Implies(Select(a0, r), Or(Eq(sel, IntLit(0)), Select(a0, sel))), sel))
 			} else {
 				sel := Select(t, r)
-				x.prog.defAxioms["wf:"+t.Op] = Forall([]*T{r}, pattern(Or(Eq(sel, IntLit(0)), Select(a0, sel)), sel))
+				x.prog.defAxioms["wf:"+t.Op] = Forall([]*T{r}, pattern(Implies(Select(a0, r), Or(Eq(sel, IntLit(0)), Select(a0, sel))), sel))
 			}
 		}
 		x.prog.mu.Unlock()
